@@ -224,6 +224,162 @@ theorem jacobi_decomposition (A0 : M3 K) (Rs : List (M3 K)) (hR : ∀ R ∈ Rs, 
 example : Orth (G01 (3/5 : ℚ) (4/5)) := orth_G01 (by norm_num)
 
 
+/-! ## (d) eigenvector of the default solver: `(A − vp) v = 0` when `det(A − vp) = 0`, `|v| = 1`
+
+Inputs are the stored components `s` (so `A_01 = s3/√2 = s3 (c/2)` …) and the eigenvalue `vp`. -/
+/-- branch `det3` (the largest 2×2 minor of `A − vp` is the one used as divisor) -/
+theorem eigvec_det3 (s0 s1 s2 s3 s4 s5 vp : K)
+    (hdet : (M3.sym s0 s1 s2 (s3 * (1 / 2 * c)) (s4 * (1 / 2 * c)) (s5 * (1 / 2 * c)) - vp • (1 : M3 K)).det = 0)
+    (hm : Gen.eigvec_det3_minor c c3 fn s0 s1 s2 s3 s4 s5 vp ≠ 0) (hn : Gen.eigvec_det3_nr c c3 fn s0 s1 s2 s3 s4 s5 vp ≠ 0)
+    (hsq : Gen.eigvec_det3_nr c c3 fn s0 s1 s2 s3 s4 s5 vp * Gen.eigvec_det3_nr c c3 fn s0 s1 s2 s3 s4 s5 vp = Gen.eigvec_det3_nr2 c c3 fn s0 s1 s2 s3 s4 s5 vp) :
+    (s0 - vp) * Gen.eigvec_det3_v0 c c3 fn s0 s1 s2 s3 s4 s5 vp + (s3 * (1 / 2 * c)) * Gen.eigvec_det3_v1 c c3 fn s0 s1 s2 s3 s4 s5 vp + (s4 * (1 / 2 * c)) * Gen.eigvec_det3_v2 c c3 fn s0 s1 s2 s3 s4 s5 vp = 0
+    ∧ (s3 * (1 / 2 * c)) * Gen.eigvec_det3_v0 c c3 fn s0 s1 s2 s3 s4 s5 vp + (s1 - vp) * Gen.eigvec_det3_v1 c c3 fn s0 s1 s2 s3 s4 s5 vp + (s5 * (1 / 2 * c)) * Gen.eigvec_det3_v2 c c3 fn s0 s1 s2 s3 s4 s5 vp = 0
+    ∧ (s4 * (1 / 2 * c)) * Gen.eigvec_det3_v0 c c3 fn s0 s1 s2 s3 s4 s5 vp + (s5 * (1 / 2 * c)) * Gen.eigvec_det3_v1 c c3 fn s0 s1 s2 s3 s4 s5 vp + (s2 - vp) * Gen.eigvec_det3_v2 c c3 fn s0 s1 s2 s3 s4 s5 vp = 0
+    ∧ Gen.eigvec_det3_v0 c c3 fn s0 s1 s2 s3 s4 s5 vp * Gen.eigvec_det3_v0 c c3 fn s0 s1 s2 s3 s4 s5 vp + Gen.eigvec_det3_v1 c c3 fn s0 s1 s2 s3 s4 s5 vp * Gen.eigvec_det3_v1 c c3 fn s0 s1 s2 s3 s4 s5 vp + Gen.eigvec_det3_v2 c c3 fn s0 s1 s2 s3 s4 s5 vp * Gen.eigvec_det3_v2 c c3 fn s0 s1 s2 s3 s4 s5 vp = 1
+    ∧ Gen.eigvec_det3_ok c c3 fn s0 s1 s2 s3 s4 s5 vp = 1 := by
+  simp only [gen_simp] at hm hn hsq
+  c03_unfold at hdet
+  simp only [gen_simp]
+  generalize fn.sqrt _ = r at *
+  refine ⟨?_, ?_, ?_, ?_, trivial⟩
+  · field_simp
+    first | ring1 | linear_combination hdet | linear_combination (-1 : K) * hdet
+  · field_simp
+    first | ring1 | linear_combination hdet | linear_combination (-1 : K) * hdet
+  · field_simp
+    first | ring1 | linear_combination hdet | linear_combination (-1 : K) * hdet
+  · field_simp at hsq ⊢
+    first | linear_combination hsq | linear_combination (-1 : K) * hsq
+
+/-- branch `det1` (the largest 2×2 minor of `A − vp` is the one used as divisor) -/
+theorem eigvec_det1 (s0 s1 s2 s3 s4 s5 vp : K)
+    (hdet : (M3.sym s0 s1 s2 (s3 * (1 / 2 * c)) (s4 * (1 / 2 * c)) (s5 * (1 / 2 * c)) - vp • (1 : M3 K)).det = 0)
+    (hm : Gen.eigvec_det1_minor c c3 fn s0 s1 s2 s3 s4 s5 vp ≠ 0) (hn : Gen.eigvec_det1_nr c c3 fn s0 s1 s2 s3 s4 s5 vp ≠ 0)
+    (hsq : Gen.eigvec_det1_nr c c3 fn s0 s1 s2 s3 s4 s5 vp * Gen.eigvec_det1_nr c c3 fn s0 s1 s2 s3 s4 s5 vp = Gen.eigvec_det1_nr2 c c3 fn s0 s1 s2 s3 s4 s5 vp) :
+    (s0 - vp) * Gen.eigvec_det1_v0 c c3 fn s0 s1 s2 s3 s4 s5 vp + (s3 * (1 / 2 * c)) * Gen.eigvec_det1_v1 c c3 fn s0 s1 s2 s3 s4 s5 vp + (s4 * (1 / 2 * c)) * Gen.eigvec_det1_v2 c c3 fn s0 s1 s2 s3 s4 s5 vp = 0
+    ∧ (s3 * (1 / 2 * c)) * Gen.eigvec_det1_v0 c c3 fn s0 s1 s2 s3 s4 s5 vp + (s1 - vp) * Gen.eigvec_det1_v1 c c3 fn s0 s1 s2 s3 s4 s5 vp + (s5 * (1 / 2 * c)) * Gen.eigvec_det1_v2 c c3 fn s0 s1 s2 s3 s4 s5 vp = 0
+    ∧ (s4 * (1 / 2 * c)) * Gen.eigvec_det1_v0 c c3 fn s0 s1 s2 s3 s4 s5 vp + (s5 * (1 / 2 * c)) * Gen.eigvec_det1_v1 c c3 fn s0 s1 s2 s3 s4 s5 vp + (s2 - vp) * Gen.eigvec_det1_v2 c c3 fn s0 s1 s2 s3 s4 s5 vp = 0
+    ∧ Gen.eigvec_det1_v0 c c3 fn s0 s1 s2 s3 s4 s5 vp * Gen.eigvec_det1_v0 c c3 fn s0 s1 s2 s3 s4 s5 vp + Gen.eigvec_det1_v1 c c3 fn s0 s1 s2 s3 s4 s5 vp * Gen.eigvec_det1_v1 c c3 fn s0 s1 s2 s3 s4 s5 vp + Gen.eigvec_det1_v2 c c3 fn s0 s1 s2 s3 s4 s5 vp * Gen.eigvec_det1_v2 c c3 fn s0 s1 s2 s3 s4 s5 vp = 1
+    ∧ Gen.eigvec_det1_ok c c3 fn s0 s1 s2 s3 s4 s5 vp = 1 := by
+  simp only [gen_simp] at hm hn hsq
+  c03_unfold at hdet
+  simp only [gen_simp]
+  generalize fn.sqrt _ = r at *
+  refine ⟨?_, ?_, ?_, ?_, trivial⟩
+  · field_simp
+    first | ring1 | linear_combination hdet | linear_combination (-1 : K) * hdet
+  · field_simp
+    first | ring1 | linear_combination hdet | linear_combination (-1 : K) * hdet
+  · field_simp
+    first | ring1 | linear_combination hdet | linear_combination (-1 : K) * hdet
+  · field_simp at hsq ⊢
+    first | linear_combination hsq | linear_combination (-1 : K) * hsq
+
+/-- branch `det2` (the largest 2×2 minor of `A − vp` is the one used as divisor) -/
+theorem eigvec_det2 (s0 s1 s2 s3 s4 s5 vp : K)
+    (hdet : (M3.sym s0 s1 s2 (s3 * (1 / 2 * c)) (s4 * (1 / 2 * c)) (s5 * (1 / 2 * c)) - vp • (1 : M3 K)).det = 0)
+    (hm : Gen.eigvec_det2_minor c c3 fn s0 s1 s2 s3 s4 s5 vp ≠ 0) (hn : Gen.eigvec_det2_nr c c3 fn s0 s1 s2 s3 s4 s5 vp ≠ 0)
+    (hsq : Gen.eigvec_det2_nr c c3 fn s0 s1 s2 s3 s4 s5 vp * Gen.eigvec_det2_nr c c3 fn s0 s1 s2 s3 s4 s5 vp = Gen.eigvec_det2_nr2 c c3 fn s0 s1 s2 s3 s4 s5 vp) :
+    (s0 - vp) * Gen.eigvec_det2_v0 c c3 fn s0 s1 s2 s3 s4 s5 vp + (s3 * (1 / 2 * c)) * Gen.eigvec_det2_v1 c c3 fn s0 s1 s2 s3 s4 s5 vp + (s4 * (1 / 2 * c)) * Gen.eigvec_det2_v2 c c3 fn s0 s1 s2 s3 s4 s5 vp = 0
+    ∧ (s3 * (1 / 2 * c)) * Gen.eigvec_det2_v0 c c3 fn s0 s1 s2 s3 s4 s5 vp + (s1 - vp) * Gen.eigvec_det2_v1 c c3 fn s0 s1 s2 s3 s4 s5 vp + (s5 * (1 / 2 * c)) * Gen.eigvec_det2_v2 c c3 fn s0 s1 s2 s3 s4 s5 vp = 0
+    ∧ (s4 * (1 / 2 * c)) * Gen.eigvec_det2_v0 c c3 fn s0 s1 s2 s3 s4 s5 vp + (s5 * (1 / 2 * c)) * Gen.eigvec_det2_v1 c c3 fn s0 s1 s2 s3 s4 s5 vp + (s2 - vp) * Gen.eigvec_det2_v2 c c3 fn s0 s1 s2 s3 s4 s5 vp = 0
+    ∧ Gen.eigvec_det2_v0 c c3 fn s0 s1 s2 s3 s4 s5 vp * Gen.eigvec_det2_v0 c c3 fn s0 s1 s2 s3 s4 s5 vp + Gen.eigvec_det2_v1 c c3 fn s0 s1 s2 s3 s4 s5 vp * Gen.eigvec_det2_v1 c c3 fn s0 s1 s2 s3 s4 s5 vp + Gen.eigvec_det2_v2 c c3 fn s0 s1 s2 s3 s4 s5 vp * Gen.eigvec_det2_v2 c c3 fn s0 s1 s2 s3 s4 s5 vp = 1
+    ∧ Gen.eigvec_det2_ok c c3 fn s0 s1 s2 s3 s4 s5 vp = 1 := by
+  simp only [gen_simp] at hm hn hsq
+  c03_unfold at hdet
+  simp only [gen_simp]
+  generalize fn.sqrt _ = r at *
+  refine ⟨?_, ?_, ?_, ?_, trivial⟩
+  · field_simp
+    first | ring1 | linear_combination hdet | linear_combination (-1 : K) * hdet
+  · field_simp
+    first | ring1 | linear_combination hdet | linear_combination (-1 : K) * hdet
+  · field_simp
+    first | ring1 | linear_combination hdet | linear_combination (-1 : K) * hdet
+  · field_simp at hsq ⊢
+    first | linear_combination hsq | linear_combination (-1 : K) * hsq
+
+
+/-! ## (b) Householder tridiagonalisation (`sytrd3`): `Q` symmetric orthogonal, `Qᵀ A Q` tridiagonal
+
+`g = ∓sqrt(h)`, `h = a01² + a02²` (hypothesis `hg`: the square root law), `ω = 1/(h − g a01)`. -/
+theorem sytrd3_pos (a00 a11 a22 a01 a02 a12 : K) (h2 : (2 : K) ≠ 0)
+    (hg : Gen.sytrd3_pos_g c c3 fn a00 a11 a22 a01 a02 a12 * Gen.sytrd3_pos_g c c3 fn a00 a11 a22 a01 a02 a12 = Gen.sytrd3_pos_h c c3 fn a00 a11 a22 a01 a02 a12)
+    (hw : Gen.sytrd3_pos_h c c3 fn a00 a11 a22 a01 a02 a12 - Gen.sytrd3_pos_g c c3 fn a00 a11 a22 a01 a02 a12 * a01 ≠ 0) :
+    (⟨Gen.sytrd3_pos_q0_0 c c3 fn a00 a11 a22 a01 a02 a12, Gen.sytrd3_pos_q0_1 c c3 fn a00 a11 a22 a01 a02 a12, Gen.sytrd3_pos_q0_2 c c3 fn a00 a11 a22 a01 a02 a12,
+      Gen.sytrd3_pos_q1_0 c c3 fn a00 a11 a22 a01 a02 a12, Gen.sytrd3_pos_q1_1 c c3 fn a00 a11 a22 a01 a02 a12, Gen.sytrd3_pos_q1_2 c c3 fn a00 a11 a22 a01 a02 a12,
+      Gen.sytrd3_pos_q2_0 c c3 fn a00 a11 a22 a01 a02 a12, Gen.sytrd3_pos_q2_1 c c3 fn a00 a11 a22 a01 a02 a12, Gen.sytrd3_pos_q2_2 c c3 fn a00 a11 a22 a01 a02 a12⟩ : M3 K).transpose
+      = ⟨Gen.sytrd3_pos_q0_0 c c3 fn a00 a11 a22 a01 a02 a12, Gen.sytrd3_pos_q0_1 c c3 fn a00 a11 a22 a01 a02 a12, Gen.sytrd3_pos_q0_2 c c3 fn a00 a11 a22 a01 a02 a12,
+      Gen.sytrd3_pos_q1_0 c c3 fn a00 a11 a22 a01 a02 a12, Gen.sytrd3_pos_q1_1 c c3 fn a00 a11 a22 a01 a02 a12, Gen.sytrd3_pos_q1_2 c c3 fn a00 a11 a22 a01 a02 a12,
+      Gen.sytrd3_pos_q2_0 c c3 fn a00 a11 a22 a01 a02 a12, Gen.sytrd3_pos_q2_1 c c3 fn a00 a11 a22 a01 a02 a12, Gen.sytrd3_pos_q2_2 c c3 fn a00 a11 a22 a01 a02 a12⟩
+    ∧ Orth (⟨Gen.sytrd3_pos_q0_0 c c3 fn a00 a11 a22 a01 a02 a12, Gen.sytrd3_pos_q0_1 c c3 fn a00 a11 a22 a01 a02 a12, Gen.sytrd3_pos_q0_2 c c3 fn a00 a11 a22 a01 a02 a12,
+      Gen.sytrd3_pos_q1_0 c c3 fn a00 a11 a22 a01 a02 a12, Gen.sytrd3_pos_q1_1 c c3 fn a00 a11 a22 a01 a02 a12, Gen.sytrd3_pos_q1_2 c c3 fn a00 a11 a22 a01 a02 a12,
+      Gen.sytrd3_pos_q2_0 c c3 fn a00 a11 a22 a01 a02 a12, Gen.sytrd3_pos_q2_1 c c3 fn a00 a11 a22 a01 a02 a12, Gen.sytrd3_pos_q2_2 c c3 fn a00 a11 a22 a01 a02 a12⟩ : M3 K)
+    ∧ (⟨Gen.sytrd3_pos_q0_0 c c3 fn a00 a11 a22 a01 a02 a12, Gen.sytrd3_pos_q0_1 c c3 fn a00 a11 a22 a01 a02 a12, Gen.sytrd3_pos_q0_2 c c3 fn a00 a11 a22 a01 a02 a12,
+      Gen.sytrd3_pos_q1_0 c c3 fn a00 a11 a22 a01 a02 a12, Gen.sytrd3_pos_q1_1 c c3 fn a00 a11 a22 a01 a02 a12, Gen.sytrd3_pos_q1_2 c c3 fn a00 a11 a22 a01 a02 a12,
+      Gen.sytrd3_pos_q2_0 c c3 fn a00 a11 a22 a01 a02 a12, Gen.sytrd3_pos_q2_1 c c3 fn a00 a11 a22 a01 a02 a12, Gen.sytrd3_pos_q2_2 c c3 fn a00 a11 a22 a01 a02 a12⟩ : M3 K).transpose * M3.sym a00 a11 a22 a01 a02 a12
+        * ⟨Gen.sytrd3_pos_q0_0 c c3 fn a00 a11 a22 a01 a02 a12, Gen.sytrd3_pos_q0_1 c c3 fn a00 a11 a22 a01 a02 a12, Gen.sytrd3_pos_q0_2 c c3 fn a00 a11 a22 a01 a02 a12,
+      Gen.sytrd3_pos_q1_0 c c3 fn a00 a11 a22 a01 a02 a12, Gen.sytrd3_pos_q1_1 c c3 fn a00 a11 a22 a01 a02 a12, Gen.sytrd3_pos_q1_2 c c3 fn a00 a11 a22 a01 a02 a12,
+      Gen.sytrd3_pos_q2_0 c c3 fn a00 a11 a22 a01 a02 a12, Gen.sytrd3_pos_q2_1 c c3 fn a00 a11 a22 a01 a02 a12, Gen.sytrd3_pos_q2_2 c c3 fn a00 a11 a22 a01 a02 a12⟩
+      = M3.sym (Gen.sytrd3_pos_d0 c c3 fn a00 a11 a22 a01 a02 a12) (Gen.sytrd3_pos_d1 c c3 fn a00 a11 a22 a01 a02 a12) (Gen.sytrd3_pos_d2 c c3 fn a00 a11 a22 a01 a02 a12) (Gen.sytrd3_pos_e0 c c3 fn a00 a11 a22 a01 a02 a12) 0 (Gen.sytrd3_pos_e1 c c3 fn a00 a11 a22 a01 a02 a12) := by
+  simp only [gen_simp] at hg hw
+  unfold Orth
+  c03_unfold
+  generalize fn.sqrt _ = r at *
+  have e2 : a02 ^ 2 = r ^ 2 - a01 ^ 2 := by linear_combination (-1 : K) * hg
+  have e3 : a02 ^ 3 = a02 * (r ^ 2 - a01 ^ 2) := by rw [← e2]; ring
+  have e4 : a02 ^ 4 = (r ^ 2 - a01 ^ 2) ^ 2 := by rw [← e2]; ring
+  have e5 : a02 ^ 5 = a02 * (r ^ 2 - a01 ^ 2) ^ 2 := by rw [← e2]; ring
+  have e6 : a02 ^ 6 = (r ^ 2 - a01 ^ 2) ^ 3 := by rw [← e2]; ring
+  refine ⟨?_, ?_, ?_⟩
+  · c03_close
+  · (repeat' apply And.intro) <;> (field_simp; ring_nf; (try simp only [e2, e3, e4, e5, e6]); (try ring1))
+  · (repeat' apply And.intro) <;> (field_simp; ring_nf; (try simp only [e2, e3, e4, e5, e6]); (try ring1))
+
+theorem sytrd3_neg (a00 a11 a22 a01 a02 a12 : K) (h2 : (2 : K) ≠ 0)
+    (hg : Gen.sytrd3_neg_g c c3 fn a00 a11 a22 a01 a02 a12 * Gen.sytrd3_neg_g c c3 fn a00 a11 a22 a01 a02 a12 = Gen.sytrd3_neg_h c c3 fn a00 a11 a22 a01 a02 a12)
+    (hw : Gen.sytrd3_neg_h c c3 fn a00 a11 a22 a01 a02 a12 - Gen.sytrd3_neg_g c c3 fn a00 a11 a22 a01 a02 a12 * a01 ≠ 0) :
+    (⟨Gen.sytrd3_neg_q0_0 c c3 fn a00 a11 a22 a01 a02 a12, Gen.sytrd3_neg_q0_1 c c3 fn a00 a11 a22 a01 a02 a12, Gen.sytrd3_neg_q0_2 c c3 fn a00 a11 a22 a01 a02 a12,
+      Gen.sytrd3_neg_q1_0 c c3 fn a00 a11 a22 a01 a02 a12, Gen.sytrd3_neg_q1_1 c c3 fn a00 a11 a22 a01 a02 a12, Gen.sytrd3_neg_q1_2 c c3 fn a00 a11 a22 a01 a02 a12,
+      Gen.sytrd3_neg_q2_0 c c3 fn a00 a11 a22 a01 a02 a12, Gen.sytrd3_neg_q2_1 c c3 fn a00 a11 a22 a01 a02 a12, Gen.sytrd3_neg_q2_2 c c3 fn a00 a11 a22 a01 a02 a12⟩ : M3 K).transpose
+      = ⟨Gen.sytrd3_neg_q0_0 c c3 fn a00 a11 a22 a01 a02 a12, Gen.sytrd3_neg_q0_1 c c3 fn a00 a11 a22 a01 a02 a12, Gen.sytrd3_neg_q0_2 c c3 fn a00 a11 a22 a01 a02 a12,
+      Gen.sytrd3_neg_q1_0 c c3 fn a00 a11 a22 a01 a02 a12, Gen.sytrd3_neg_q1_1 c c3 fn a00 a11 a22 a01 a02 a12, Gen.sytrd3_neg_q1_2 c c3 fn a00 a11 a22 a01 a02 a12,
+      Gen.sytrd3_neg_q2_0 c c3 fn a00 a11 a22 a01 a02 a12, Gen.sytrd3_neg_q2_1 c c3 fn a00 a11 a22 a01 a02 a12, Gen.sytrd3_neg_q2_2 c c3 fn a00 a11 a22 a01 a02 a12⟩
+    ∧ Orth (⟨Gen.sytrd3_neg_q0_0 c c3 fn a00 a11 a22 a01 a02 a12, Gen.sytrd3_neg_q0_1 c c3 fn a00 a11 a22 a01 a02 a12, Gen.sytrd3_neg_q0_2 c c3 fn a00 a11 a22 a01 a02 a12,
+      Gen.sytrd3_neg_q1_0 c c3 fn a00 a11 a22 a01 a02 a12, Gen.sytrd3_neg_q1_1 c c3 fn a00 a11 a22 a01 a02 a12, Gen.sytrd3_neg_q1_2 c c3 fn a00 a11 a22 a01 a02 a12,
+      Gen.sytrd3_neg_q2_0 c c3 fn a00 a11 a22 a01 a02 a12, Gen.sytrd3_neg_q2_1 c c3 fn a00 a11 a22 a01 a02 a12, Gen.sytrd3_neg_q2_2 c c3 fn a00 a11 a22 a01 a02 a12⟩ : M3 K)
+    ∧ (⟨Gen.sytrd3_neg_q0_0 c c3 fn a00 a11 a22 a01 a02 a12, Gen.sytrd3_neg_q0_1 c c3 fn a00 a11 a22 a01 a02 a12, Gen.sytrd3_neg_q0_2 c c3 fn a00 a11 a22 a01 a02 a12,
+      Gen.sytrd3_neg_q1_0 c c3 fn a00 a11 a22 a01 a02 a12, Gen.sytrd3_neg_q1_1 c c3 fn a00 a11 a22 a01 a02 a12, Gen.sytrd3_neg_q1_2 c c3 fn a00 a11 a22 a01 a02 a12,
+      Gen.sytrd3_neg_q2_0 c c3 fn a00 a11 a22 a01 a02 a12, Gen.sytrd3_neg_q2_1 c c3 fn a00 a11 a22 a01 a02 a12, Gen.sytrd3_neg_q2_2 c c3 fn a00 a11 a22 a01 a02 a12⟩ : M3 K).transpose * M3.sym a00 a11 a22 a01 a02 a12
+        * ⟨Gen.sytrd3_neg_q0_0 c c3 fn a00 a11 a22 a01 a02 a12, Gen.sytrd3_neg_q0_1 c c3 fn a00 a11 a22 a01 a02 a12, Gen.sytrd3_neg_q0_2 c c3 fn a00 a11 a22 a01 a02 a12,
+      Gen.sytrd3_neg_q1_0 c c3 fn a00 a11 a22 a01 a02 a12, Gen.sytrd3_neg_q1_1 c c3 fn a00 a11 a22 a01 a02 a12, Gen.sytrd3_neg_q1_2 c c3 fn a00 a11 a22 a01 a02 a12,
+      Gen.sytrd3_neg_q2_0 c c3 fn a00 a11 a22 a01 a02 a12, Gen.sytrd3_neg_q2_1 c c3 fn a00 a11 a22 a01 a02 a12, Gen.sytrd3_neg_q2_2 c c3 fn a00 a11 a22 a01 a02 a12⟩
+      = M3.sym (Gen.sytrd3_neg_d0 c c3 fn a00 a11 a22 a01 a02 a12) (Gen.sytrd3_neg_d1 c c3 fn a00 a11 a22 a01 a02 a12) (Gen.sytrd3_neg_d2 c c3 fn a00 a11 a22 a01 a02 a12) (Gen.sytrd3_neg_e0 c c3 fn a00 a11 a22 a01 a02 a12) 0 (Gen.sytrd3_neg_e1 c c3 fn a00 a11 a22 a01 a02 a12) := by
+  simp only [gen_simp] at hg hw
+  unfold Orth
+  c03_unfold
+  generalize fn.sqrt _ = r at *
+  have e2 : a02 ^ 2 = r ^ 2 - a01 ^ 2 := by linear_combination (-1 : K) * hg
+  have e3 : a02 ^ 3 = a02 * (r ^ 2 - a01 ^ 2) := by rw [← e2]; ring
+  have e4 : a02 ^ 4 = (r ^ 2 - a01 ^ 2) ^ 2 := by rw [← e2]; ring
+  have e5 : a02 ^ 5 = a02 * (r ^ 2 - a01 ^ 2) ^ 2 := by rw [← e2]; ring
+  have e6 : a02 ^ 6 = (r ^ 2 - a01 ^ 2) ^ 3 := by rw [← e2]; ring
+  refine ⟨?_, ?_, ?_⟩
+  · c03_close
+  · (repeat' apply And.intro) <;> (field_simp; ring_nf; (try simp only [e2, e3, e4, e5, e6]); (try ring1))
+  · (repeat' apply And.intro) <;> (field_simp; ring_nf; (try simp only [e2, e3, e4, e5, e6]); (try ring1))
+
+/-- degenerate branch (`a01 = a02 = 0` makes `ω ≤ 0`): nothing to do, `Q = 1`, `d = diag A`, `e = (g, a12)` -/
+theorem sytrd3_diag (a00 a11 a22 a01 a02 a12 : K) :
+    (⟨Gen.sytrd3_diag_q0_0 c c3 fn a00 a11 a22 a01 a02 a12, Gen.sytrd3_diag_q0_1 c c3 fn a00 a11 a22 a01 a02 a12, Gen.sytrd3_diag_q0_2 c c3 fn a00 a11 a22 a01 a02 a12,
+      Gen.sytrd3_diag_q1_0 c c3 fn a00 a11 a22 a01 a02 a12, Gen.sytrd3_diag_q1_1 c c3 fn a00 a11 a22 a01 a02 a12, Gen.sytrd3_diag_q1_2 c c3 fn a00 a11 a22 a01 a02 a12,
+      Gen.sytrd3_diag_q2_0 c c3 fn a00 a11 a22 a01 a02 a12, Gen.sytrd3_diag_q2_1 c c3 fn a00 a11 a22 a01 a02 a12, Gen.sytrd3_diag_q2_2 c c3 fn a00 a11 a22 a01 a02 a12⟩ : M3 K) = 1
+    ∧ Gen.sytrd3_diag_d0 c c3 fn a00 a11 a22 a01 a02 a12 = a00 ∧ Gen.sytrd3_diag_d1 c c3 fn a00 a11 a22 a01 a02 a12 = a11
+    ∧ Gen.sytrd3_diag_d2 c c3 fn a00 a11 a22 a01 a02 a12 = a22 ∧ Gen.sytrd3_diag_e1 c c3 fn a00 a11 a22 a01 a02 a12 = a12 := by
+  c03_unfold
+  c03_close
+
+
 /-! ## (c) Cardano's closed form (`syevc3`): Vieta's relations (fields of characteristic 0) -/
 section cardano
 variable [CharZero K]
